@@ -1,8 +1,9 @@
 // C03: validate / safeParse / parse agree; parsed data is a faithful projection of the input.
-import { Reporter, TIER, valueKind, sha } from "./common.mjs";
+import { Reporter, TIER, SEED, valueKind, sha } from "./common.mjs";
 import { familyPrograms, forEachCompiledParser, bFamily } from "./cases.mjs";
+import { sizeCases } from "./sizes.mjs";
 import { render, skeleton } from "./spec.mjs";
-import { build, toSrc, universeFor, CYCLIC, sparseSet } from "./universe.mjs";
+import { build, toSrc, universeFor, CYCLIC, sparseSet, bigVariant } from "./universe.mjs";
 import { noUndeclared, member, dcSeen, IN, DC, Prog, isPlain } from "./ref.mjs";
 
 // canonical text of a value (distinguishes kinds; optionally ignores object key order)
@@ -161,6 +162,7 @@ export function checkParser({ rep, stats, parser, parserName, spec, refProg, vx,
     rep.violation(`C03 ${monitor} : ${sig} : ${skel.replace(/\blit:\w+|string|number|boolean|null|undefined|bigint|Date|any|never|typed|void|unknown/g, "_")}`, `${monitor}: ${typeText} on ${src}: ${what}`, { engine: "E-src", program, parser: parserName, type: typeText, value: src, monitor, what }, { valueSrc: src, valueKind: valueKind(build(vx)) });
   };
   const results = {};
+  let exactInput; // decided once per value (the reference does not depend on the options)
   for (const [opts, oname] of OPTIONS) {
     if (vx.cyclic && oname.includes("sorted")) continue; // cyclic values: default and strict only (no-throw is the question)
     stats.evaluations++;
@@ -220,16 +222,19 @@ export function checkParser({ rep, stats, parser, parserName, spec, refProg, vx,
       if (!undisputed) pf = null;
     }
     if (pf) fail(`parsed data is not a projection of the input [${oname}]: ${pf}`, "projection");
-    if (spec && again === true) {
+    if (spec && again === true && !vx.big) {
       const nu = noUndeclared(refProg, spec, d, 64, { unionMerge: true });
       if (nu !== IN && nu !== DC) fail(`parsed data ${canon(d).slice(0, 80)} carries a key the type does not declare [${oname}]`, "declared-only");
     }
     // completeness: an input that is a member and carries no undeclared key at any position (reference, no debatable
     // branch involved) has nothing to project away - the parsed data must be the input itself, up to key order,
     // undefined-valued keys and padded tuple positions
-    if (spec && !vx.cyclic && !vx.sparse) {
-      dcSeen.count = 0;
-      const exact = member(refProg, spec, input) === IN && noUndeclared(refProg, spec, input, 64) === IN && dcSeen.count === 0;
+    if (spec && !vx.cyclic && !vx.sparse && !vx.big) {
+      if (exactInput === undefined) {
+        dcSeen.count = 0;
+        exactInput = member(refProg, spec, input) === IN && noUndeclared(refProg, spec, input, 64) === IN && dcSeen.count === 0;
+      }
+      const exact = exactInput;
       if (exact) {
         stats.exactInputs = (stats.exactInputs ?? 0) + 1;
         if (loose(d) !== loose(input)) fail(`parsed data lost a declared part of an input that has no undeclared key [${oname}]: ${canon(d, true).slice(0, 70)} from ${canon(input, true).slice(0, 70)}`, "complete");
@@ -258,6 +263,41 @@ export function checkParser({ rep, stats, parser, parserName, spec, refProg, vx,
   }
 }
 
+// long inputs: every entry point must answer (no RangeError from argument-count or recursion limits), the three must
+// agree, an accepted array comes back with its length, a rejected one with 1..10 errors
+async function sizeFamily(rep, stats) {
+  const { parsers, cases, text } = await sizeCases();
+  for (const c of cases) {
+    const parser = parsers[c.parser];
+    for (const [opts, oname] of TIER === "thorough" ? OPTIONS : [OPTIONS[0], OPTIONS[3]]) {
+      stats.evaluations++;
+      stats.sizeCases = (stats.sizeCases ?? 0) + 1;
+      const input = c.make();
+      const detail = { engine: "E-src", program: text, parser: c.parser, type: c.type, value: c.src, options: oname };
+      let v, sp;
+      try {
+        v = parser.validate(input, opts);
+        sp = parser.safeParse(input, opts);
+      } catch (e) {
+        rep.violation(`C03 no-throw : long input : ${e?.constructor?.name} : ${c.shape}`, `${c.type} on ${c.src} [${oname}]: ${e?.constructor?.name}: ${String(e?.message).slice(0, 80)}`, detail);
+        continue;
+      }
+      if (v !== c.expect || sp.success !== v) rep.violation(`C03 agree : long input : ${c.shape}`, `${c.type} on ${c.src} [${oname}]: validate=${v} safeParse.success=${sp.success} expected ${c.expect}`, detail);
+      let threw = null,
+        pr;
+      try {
+        pr = parser.parse(input, opts);
+      } catch (e) {
+        threw = e;
+      }
+      if (v && threw) rep.violation(`C03 agree : long input : parse threw on an accepted value : ${c.shape}`, `${c.type} on ${c.src} [${oname}]: ${String(threw?.message).slice(0, 80)}`, detail);
+      if (!v && (!threw || threw.constructor !== Error || !String(threw.message).startsWith(`Failed to parse ${parser.name} - `))) rep.violation(`C03 no-throw : long input : parse failure is not the documented error : ${c.shape}`, `${c.type} on ${c.src} [${oname}]: ${threw?.constructor?.name}: ${String(threw?.message).slice(0, 80)}`, detail);
+      if (v && sp.success && c.lengthOf(sp.data) !== c.lengthOf(input)) rep.violation(`C03 projection : long input : length changed : ${c.shape}`, `${c.type} on ${c.src} [${oname}]: ${c.lengthOf(sp.data)} items from ${c.lengthOf(input)}`, detail);
+      if (!v && !sp.success && !(sp.errors.length >= 1 && sp.errors.length <= 10)) rep.violation(`C03 agree : long input : ${sp.errors.length} errors : ${c.shape}`, `${c.type} on ${c.src} [${oname}]`, detail);
+    }
+  }
+}
+
 export async function run() {
   const rep = new Reporter("C03");
   const stats = { evaluations: 0, parsers: 0, bParsers: 0 };
@@ -269,7 +309,7 @@ export async function run() {
     const skel = skeleton(spec0, refProg);
     const typeText = render(spec0);
     let acc = "";
-    for (const vx of [...U, ...CYCLIC, ...sparseSet([...U].reverse(), 60)]) {
+    for (const vx of [...U, ...CYCLIC, ...sparseSet([...U].reverse(), TIER === "thorough" ? 60 : 16)]) {
       checkParser({ rep, stats, parser, parserName: name, spec, refProg, vx, typeText, skel, program: text });
     }
     // outcome fingerprint: accept vector in strict mode over the first 60 values
@@ -292,13 +332,15 @@ export async function run() {
       samples.push({ type: typeText, value: toSrc(vx), safeParse: sp.success ? { success: true, data: canon(sp.data) } : { success: false } });
     }
   });
+  // size family: long arrays (150 000 items) at array / tuple-rest positions, accepted and rejected, on a fixed program
+  await sizeFamily(rep, stats);
   // b.* compositions
   const bf = bFamily(TIER === "thorough" ? 2 : 1);
   const emptyProg = new Prog([]);
   for (const { parser, spec, src } of bf.items) {
     stats.bParsers++;
     const U = universeFor(emptyProg, spec, { mutantCap: 150 });
-    for (const vx of [...U, ...CYCLIC, ...sparseSet([...U].reverse(), 40)]) checkParser({ rep, stats, parser, parserName: parser.name, spec, refProg: emptyProg, vx, typeText: src, skel: "b:" + skeleton(spec), program: "// " + src });
+    for (const vx of [...U, ...CYCLIC, ...sparseSet([...U].reverse(), TIER === "thorough" ? 40 : 8)]) checkParser({ rep, stats, parser, parserName: parser.name, spec, refProg: emptyProg, vx, typeText: src, skel: "b:" + skeleton(spec), program: "// " + src });
   }
   if (samples.length < 1) samples.push({ note: "no sample slot hit" });
   return rep.finish({
@@ -312,6 +354,7 @@ export async function run() {
       parsers: stats.parsers,
       b_parsers: stats.bParsers,
       exact_inputs_checked_for_completeness: stats.exactInputs ?? 0,
+      long_input_cases: stats.sizeCases ?? 0,
       options: OPTIONS.map((o) => o[1]),
     },
     assumptions: ["values with getters/proxies/symbol keys are outside the alphabet", "declared-only uses the reference's declaredKeys (ref.mjs noUndeclared)"],
